@@ -489,7 +489,7 @@ func checkConfinement(c ConfCase, slow bool) (hx.Vs, *confInfo) {
 		info.planted = len(t.planted)
 		shown := fmt.Sprintf("%q", path)
 		if len(shown) > 80 {
-			shown = fmt.Sprintf("%q…(%d bytes)", path[:60], len(path))
+			shown = fmt.Sprintf("%q…(%d bytes)", path[:min(60, len(path))], len(path))
 		}
 		before := snapshot(s.top, slow)
 		for i, o := range t.ops {
